@@ -329,6 +329,33 @@ def _addr_tasks():
                 E.prove(f"C22.{cls}.handle_trace.second_visit_of_the_same_address_raises_AddressReuse[{addr!r}]",
                         st2 == "raise" and r2.kind == "AddressReuse")
         E.refutable("static.seq.record_same_address_twice", E.eq(E.real("p"), E.real("q")))
+
+    @task("static.seq.generate_with_a_static_constraint", props=["C03", "C22"], functions=FUNCS)
+    def t_generate_static(E):
+        """GenerateHandler on a REAL Static constraint (built by the real ChoiceMap.d) with string and tuple addresses: the
+        callee at a site gets exactly the constraint's sub-map at the site's address (the sub-map as the choice-map classes
+        compute it: C17), for addresses that are constrained, partly constrained below, and unconstrained"""
+        z3, T = E.z3, E.I.T
+        v1, v2, v3 = E.real("v1"), E.real("v2"), E.real("v3")
+        m = E.call(CM + ":ChoiceMap.d", {("a", "b"): v1, "y": v2, ("a", "c", "d"): v3})
+        for addr in (("a", "b"), "y", ("a", "c"), ("a", "c", "d"), "z", ("a", "z")):
+            k = key(E)
+            h = E.I.call(E.cls(S_ + "GenerateHandler"), [k, m], {})
+            g, a = G(E, "G1"), E.opaque("args1", "tuple")
+            st, r = E.attempt(lambda: E.method(h, "handle_trace", addr, g, a))
+            tag = f"[{addr!r}]"
+            E.require("C03.GenerateHandler.handle_trace.static_constraint.does_not_raise" + tag, st == "ok")
+            rec = h.fields["traces"].get(addr) if isinstance(h.fields["traces"], dict) else None
+            E.require("C22.GenerateHandler.handle_trace.static_constraint.records_the_site_under_its_address" + tag, isinstance(rec, UVal))
+            t = z3.simplify(rec.t)
+            E.require("C03.GenerateHandler.handle_trace.static_constraint.runs_the_callee_generate" + tag,
+                      z3.is_app(t) and t.decl().name() == "gf_generate_tr" and t.num_args() == 4)
+            want = E.I.to_u(E.method(m, "get_submap", *(addr if isinstance(addr, tuple) else (addr,))))
+            E.prove("C03.GenerateHandler.handle_trace.static_constraint.callee_gets_the_submap_at_the_site_address" + tag,
+                    z3.And(t.arg(0) == g.t, t.arg(2) == want, t.arg(3) == a.t))
+            E.prove("C03.GenerateHandler.handle_trace.static_constraint.weight_is_the_callee_weight" + tag,
+                    E.eq(h.fields["weight"], SReal(T.cdens(t, t.arg(2)))))
+        E.refutable("static.seq.generate_with_a_static_constraint", E.eq(v1, v2))
     return t_assess, t_record
 
 
